@@ -23,7 +23,7 @@ class Rec:
 HOSTILE_HTML = ['<div><!-- never closed <p>', '<a href="x><b>', '<script>if (a<b) {', '<ul><li><![CDATA[ x', '<?php echo "', "<p title='><em>", '</div></div>', '<style>a{']
 
 
-def gen_doc(rnd, xml, budget=14):
+def gen_doc(rnd, xml, budget=14, unclosed=0):
     """returns (source, [top-level Rec...]); every Rec knows where its tags and attributes are"""
     buf = []
     pos = [0]
@@ -34,7 +34,8 @@ def gen_doc(rnd, xml, budget=14):
     def junk():
         k = rnd.random()
         if k < .35: emit(rnd.choice(['text', ' ', 'a b', 'x > y', '\n  ', 'é', '1 &lt; 2']))
-        elif k < .5: emit('<!-- ' + rnd.choice(['c', '<div>', '</p>', 'a -- b', '<b x="1">']) + ' -->')
+        elif k < .44: emit('<!-- ' + rnd.choice(['c', '<div>', '</p>', 'a -- b', '<b x="1">']) + ' -->')
+        elif k < .5: emit(rnd.choice(['<!-->', '<!--->', '<!---']) + rnd.choice([' <div> ', '</p>', ' x <b> y </i> ', '']) + '-->')      # a comment whose text starts with `>` / `->`
         elif k < .58: emit('<![CDATA[' + rnd.choice(['d', '<i>', ']] >', '</div>']) + ']]>')
         elif k < .7: emit(rnd.choice(['</zz>', '</br>', '</q-x>', '</Zz >'.replace(' ', '')]))      # a stray closing tag: matches nothing that is open, changes nothing
         elif k < .76: emit('<?' + rnd.choice(['php echo "<p>"; ', 'xml version="1.0"', 'x', 'php echo "?><span class=x>"; ', "php $a = '?></div>'; ", 'php echo "a\\"?><b>"; ']) + '?>')
@@ -49,10 +50,10 @@ def gen_doc(rnd, xml, budget=14):
             if k < .2:
                 rec.attrs.append((name, None, ns, ne, None, None)); continue
             emit('=')
-            if k < .5: v = '"' + rnd.choice(['v', 'a b', 'x>y', "it's", '', '</p>', '<b>', 'a/b', 'btn btn-x\n\tis-on', 'a\r\n b  c']) + '"'
+            if k < .5: v = '"' + rnd.choice(['v', 'a b', 'x>y', "it's", '', '</p>', '<b>', 'a/b', '<br/> tag', 'x/>', 'btn btn-x\n\tis-on', 'a\r\n b  c']) + '"'
             elif k < .7: v = "'" + rnd.choice(['v', 'a b', 'x>y', 'say "hi"', '']) + "'"
             elif k < .85: v = rnd.choice(['v', 'a.b', '1', 'x:y', 'foo-bar', 'page?id=7', 'QUJD==', 'a=b'])
-            else: v = '{' + rnd.choice(['e', 'a > b', '{x}', 'f("y")']) + '}'
+            else: v = '{' + rnd.choice(['e', 'a > b', '{x}', 'f("y")', '<Icon/>']) + '}'
             vs = pos[0]; emit(v); ve = pos[0]
             rec.attrs.append((name, v, ns, ne, vs, ve))
 
@@ -110,7 +111,13 @@ def gen_doc(rnd, xml, budget=14):
     while budget_[0] > 0 and (not tops or rnd.random() < .6):
         budget_[0] -= 1
         tops.append(element(0)); junk()
+    if unclosed and rnd.random() < unclosed:
+        # the document ends inside a special element that is never closed: nothing after its open tag is markup, and it is no pair
+        emit(rnd.choice(['<script>', '<style>', '<script type="text/javascript">']) + rnd.choice(['var a = "<div>";', 'a{b:c} </p>', '', 'x <b> y']))
     return ''.join(buf), tops
+
+
+shared_opt = {True: {'xml': True}, False: {'xml': False}}      # the caller's own options objects, reused for every call
 
 
 def rec_to_json(r):
@@ -138,7 +145,7 @@ def cases(tier, seed, prop):
         n = 700 if tier == 'quick' else 12000
         while len(out) < n:
             xml = rnd.random() < .35
-            s, tops = gen_doc(rnd, xml, rnd.randint(1, 9))
+            s, tops = gen_doc(rnd, xml, rnd.randint(1, 9), unclosed=.1)
             if len(s) > 220: continue
             out.append({'s': s, 'g': 'doc', 'xml': xml, 'truth': [rec_to_json(t) for t in tops]})
     return out
@@ -311,7 +318,8 @@ def run(case, prop):
     for xml in (False, True):
         for pos in range(-1, len(s) + 2):
             try:
-                m = match(s, pos, {'xml': xml}); o = balanced_outward(s, pos, {'xml': xml}); i = balanced_inward(s, pos, {'xml': xml})
+                m = match(s, pos, shared_opt[xml]); o = balanced_outward(s, pos, shared_opt[xml]); i = balanced_inward(s, pos, shared_opt[xml])
+                if shared_opt[xml] != {'xml': xml}: viol.append('options-changed| the matcher changed the options dictionary of its caller: %r' % (shared_opt[xml],)); shared_opt[xml] = {'xml': xml}
                 out += ' | %s ; %s ; %s' % (sm(m), ' '.join(sm(x) for x in o), ' '.join(sm(x) for x in i))
                 if prop == 'C16': viol += oracle_C16(s, evl, xml, pos, m, o, i)
                 elif prop == 'C09' and xml == case.get('xml') and 0 <= pos <= len(s): viol += oracle_C09(case, pos, m, o, i)
